@@ -92,6 +92,8 @@ static std::string type_sexpr_d(const type_t& t, int depth)
 
 std::string type_sexpr(const type_t& t, int depth) { return type_sexpr_d(t, depth); }
 
+static size_t n_children_hint(const expression_t& e) { return expr_stored_children(e); }
+
 static std::string sexpr_d(const expression_t& e, const SexprOpts& o, int depth)
 {
     if (e.empty())
@@ -127,8 +129,16 @@ static std::string sexpr_d(const expression_t& e, const SexprOpts& o, int depth)
         }
     } else {
         if (k == DOT || k == VAR_INDEX) {
-            if (expr_value_int(e, iv))
+            if (expr_value_int(e, iv)) {
                 r += ":" + std::to_string(iv);
+                // the member the index selects, with its (argument-substituted) type
+                if (k == DOT && o.sym_types && n_children_hint(e) == 1) {
+                    type_t bt = expr_child(e, 0)->get_type();
+                    if (bt.data != nullptr && (bt.is_process() || bt.is_record()) && iv >= 0 &&
+                        (size_t)iv < (size_t)bt.get_record_size())
+                        r += ":" + bt.get_record_label(iv) + ":" + type_sexpr_d(e.get_type(), depth + 1);
+                }
+            }
         } else if (k == SYNC) {
             if (expr_value_sync(e, yv))
                 r += ":" + std::to_string(yv);
